@@ -124,6 +124,25 @@ func genC06(ctx *Ctx) {
 			}
 		}
 	}
+	// lists of 70 .. 300 elements: membership of an element near the end / absent, indexing at the ends
+	for _, n := range []int{70, 130, 300} {
+		es := make([]*variants.Variant, n)
+		for i := range es {
+			es[i] = variants.VariantFromInteger(i * 3)
+		}
+		es[n/2] = variants.VariantFromString("mid")
+		arr := variants.VariantFromArray(es)
+		for _, safe := range []bool{false, true} {
+			for _, x := range []*variants.Variant{variants.VariantFromInteger((n - 1) * 3), variants.VariantFromInteger(1), variants.VariantFromInteger(0), variants.VariantFromLong(int64((n - 2) * 3))} {
+				ctx.Count("op:in-long-list")
+				ctx.Input(c06Input(safe, 20, arr, x), true)
+			}
+			for _, idx := range []int{0, n / 2, n - 1, n, n + 1, 64, 128, 256} {
+				ctx.Count("op:index-long-list")
+				ctx.Input(c06Input(safe, 21, arr, variants.VariantFromInteger(idx)), true)
+			}
+		}
+	}
 	for op := 1; op <= 21; op++ {
 		for i, a := range pool {
 			for j, b := range pool {
